@@ -29,6 +29,8 @@ impl Tier {
 pub struct Case {
     pub policy: Policy,
     pub ops: Vec<SOp>,
+    /// Continuation history (run after a recovery), when the property uses one.
+    pub cont: Vec<SOp>,
     pub words: Vec<u32>,
     /// Present when replaying a file: property-specific explicit choices.
     pub extra: Option<Value>,
@@ -52,6 +54,12 @@ impl ReplayFile {
         Case {
             policy: self.policy,
             ops: self.ops.iter().cloned().map(SOp::Lit).collect(),
+            cont: self
+                .extra
+                .get("cont")
+                .and_then(|value| serde_json::from_value::<Vec<COp>>(value.clone()).ok())
+                .map(|list| list.into_iter().map(SOp::Lit).collect())
+                .unwrap_or_default(),
             words: self
                 .extra
                 .get("words")
